@@ -497,3 +497,12 @@ M('c15-from-delegator-clones-after-unwrap', [('src/default_impl_delegator.rs', '
         };
         Arc::new(unimock)''', '''        let delegator = Arc::try_unwrap(delegator).unwrap_or_else(|shared| (*shared).clone());
         Arc::new(delegator.unimock.clone())''')], {'C15': r'R15\.5', 'C09': r'R09\.handles'})
+
+EV = 'src/eval.rs'
+
+# ---- loop-form of the unordered scan (the neutral refactoring `scan-as-for-loop`), broken in three ways -------------------
+_SCAN_OLD = '            PatternMatchMode::InAnyOrder => fn_mocker\n                .call_patterns\n                .iter()\n                .enumerate()\n                .filter_map(\n                    |(pat_index, call_pattern)| match match_inputs(call_pattern, None) {\n                        Ok(false) => None,\n                        Ok(true) => Some(Ok((PatIndex(pat_index), call_pattern))),\n                        Err(err) => Some(Err((PatIndex(pat_index), err))),\n                    },\n                )\n                .next()\n                .transpose()\n                .map_err(|(pat_index, err)| self.map_pattern_error(err, fn_mocker, pat_index)),'
+_SCAN_LOOP = '            PatternMatchMode::InAnyOrder => {\n                for (pat_index, call_pattern) in fn_mocker.call_patterns.iter().enumerate() {\n                    match match_inputs(call_pattern, None) {\n                        Ok(false) => {}\n                        Ok(true) => return Ok(Some((PatIndex(pat_index), call_pattern))),\n                        Err(err) => return Err(self.map_pattern_error(err, fn_mocker, PatIndex(pat_index))),\n                    }\n                }\n                Ok(None)\n            }'
+M('c01-loopscan-rev', [(EV, _SCAN_OLD, _SCAN_LOOP.replace('.iter().enumerate() {', '.iter().enumerate().rev() {'))], {'C01': r'R01\.1'})
+M('c01-loopscan-stop-at-reject', [(EV, _SCAN_OLD, _SCAN_LOOP.replace('Ok(false) => {}', 'Ok(false) => return Ok(None),'))], {'C01': r'R01\.1'})
+M('c01-loopscan-last-wins', [(EV, _SCAN_OLD, _SCAN_LOOP.replace('for (pat_index', 'let mut found = None;\n                for (pat_index').replace('Ok(true) => return Ok(Some((PatIndex(pat_index), call_pattern))),', 'Ok(true) => { found = Some((PatIndex(pat_index), call_pattern)); }').replace('Ok(None)\n            }', 'Ok(found)\n            }'))], {'C01': r'R01\.1'})
